@@ -42,7 +42,9 @@ def size_of(items):
     return sum(sz for _, sz in items)
 
 
-def call(E, name, args, kwargs, st, node):
+def call(E, name, args, kwargs, st, node, node_arg_shift=0):
+    """node_arg_shift = -1 when called for a method of a precompiled struct.Struct (the format is not among the call's own
+    argument nodes)"""
     from .engine import Raised
     fmt = args[0]
     if isinstance(fmt, SeqV) and isinstance(fmt.length, int):
@@ -130,7 +132,8 @@ def call(E, name, args, kwargs, st, node):
         buf, offset, vals = args[1], args[2], list(args[3:])
         if not isinstance(buf, SeqV):
             raise EngineError("struct.pack_into into %r" % type(buf).__name__)
-        if not (isinstance(node, _ast.Call) and len(node.args) > 1 and isinstance(node.args[1], (_ast.Name, _ast.Attribute))):
+        bi = 1 + node_arg_shift
+        if not (isinstance(node, _ast.Call) and len(node.args) > bi and isinstance(node.args[bi], (_ast.Name, _ast.Attribute))):
             raise EngineError("struct.pack_into: the buffer argument must be a plain name")
         total = size_of(items)
         ar = Arith(lambda *a: None)
@@ -165,7 +168,7 @@ def call(E, name, args, kwargs, st, node):
                         nxt.append((s3, b3, pos + sz))
                 states = nxt
             for s2, b2, pos in states:
-                res.append((E.assign(node.args[1], b2, s2, node), NONE))
+                res.append((E.assign(node.args[bi], b2, s2, node), NONE))
         return res
     raise EngineError("struct.%s not modelled" % name)
 
